@@ -8,7 +8,7 @@ from ..expr import C, SELF, canon, norm, show, strip_epochs, walk
 from ..intervals import EQ, GT, LT, path_orderings
 from ..model import AnalysisError
 
-EXPL = ("Path-shape and ordering-set rules on ExpandingBloomFilter.add_alt / __check_for_growth / __add_bloom_filter and "
+EXPL = ("Path-shape and ordering-set rules on ExpandingBloomFilter.add_alt (growth helpers looked through) and "
         "BloomFilter.add_alt: the total counter is incremented exactly once on every path; insertion into the newest sub-filter "
         "happens exactly on the paths with force or not-present; the growth check precedes the insertion; the growth predicate, "
         "judged by the orderings it admits under the inductive hypothesis newest.count <= est, grows only at count >= est and "
@@ -40,48 +40,49 @@ def list_ops(prog, ctx, p, appenders):
     return ops
 
 
-def appender_ok(prog, rep, rid, ctx, f, est_field):
-    """__add_bloom_filter appends exactly one new BloomFilter built with the filter's own est_elements"""
-    ps = [p for p in paths(prog, ctx, f) if p.exit[0] == "return"]
-    for p in ps:
-        news = [e for e in p.events if e.kind == "new" and e.cls == "BloomFilter"]
-        apps = [e for e in p.events if e.kind == "call" and e.target is None and e.name == "append" and e.recv is not None and strip_epochs(e.recv) == BLOOMS]
-        if len(news) != 1 or len(apps) != 1 or apps[0].args[0] != news[0].obj:
-            rep.bad(rid, f"{ctx}.{f.src_name}", "append shape", "growth does not append exactly one freshly built sub-filter at the end of the list", f.where())
+HELPERS = ("__check_for_growth", "__add_bloom_filter", "__rotate_bloom_filter")
+
+
+def entry_paths(prog, ctx, fname):
+    """paths of a public entry point with the growth / rotation helpers looked through: the rules below are about what add_alt
+    (or push) does as a whole, whichever private helper the decision currently lives in"""
+    f = prog.method(ctx, fname)
+    return f, paths(prog, ctx, f, force_inline=HELPERS)
+
+
+def appended_ok(rep, rid, where, p, f, est_field):
+    """the sub-filter appended on this path is one fresh BloomFilter built with the filter's own parameters"""
+    news = [e for e in p.events if e.kind == "new" and e.cls == "BloomFilter"]
+    apps = [e for e in p.events if e.kind == "call" and e.target is None and e.name == "append" and e.recv is not None and strip_epochs(e.recv) == BLOOMS]
+    if len(news) != 1 or len(apps) != 1 or apps[0].args[0] != news[0].obj:
+        rep.bad(rid, where, "append shape", "growth does not append exactly one freshly built sub-filter at the end of the list", f.where())
+        return False
+    got = dict(news[0].kwargs)
+    names = ["est_elements", "false_positive_rate", "filepath", "hex_string", "hash_function"]
+    for i, a_ in enumerate(news[0].args):
+        got[names[i]] = a_
+    est = strip_epochs(got.get("est_elements", C(None)))
+    if est != ("f", SELF, est_field, 0):
+        rep.bad(rid, where, f"est_elements = {nshow(est)}", "a new sub-filter is not sized with the filter's own est_elements", news[0].where())
+        return False
+    for k, fld in (("false_positive_rate", "_ExpandingBloomFilter__fpr"), ("hash_function", "_ExpandingBloomFilter__hash_func")):
+        v = strip_epochs(got.get(k, C(None)))
+        if v != ("f", SELF, fld, 0):
+            rep.bad(rid, where, f"{k} = {nshow(v)}",
+                    f"a new sub-filter is built with {k} = {nshow(v)}, not the filter's own: keys hashed for one sub-filter are not valid for the next", news[0].where())
             return False
-        got = dict(news[0].kwargs)
-        if news[0].args:
-            got["est_elements"] = news[0].args[0]
-        names = ["est_elements", "false_positive_rate", "filepath", "hex_string", "hash_function"]
-        for i, a_ in enumerate(news[0].args):
-            got[names[i]] = a_
-        est = strip_epochs(got.get("est_elements", C(None)))
-        if est != ("f", SELF, est_field, 0):
-            rep.bad(rid, f"{ctx}.{f.src_name}", f"est_elements = {nshow(est)}", "a new sub-filter is not sized with the filter's own est_elements", news[0].where())
-            return False
-        for k, fld in (("false_positive_rate", "_ExpandingBloomFilter__fpr"), ("hash_function", "_ExpandingBloomFilter__hash_func")):
-            v = strip_epochs(got.get(k, C(None)))
-            if v != ("f", SELF, fld, 0):
-                rep.bad(rid, f"{ctx}.{f.src_name}", f"{k} = {nshow(v)}",
-                        f"a new sub-filter is built with {k} = {nshow(v)}, not the filter's own: keys hashed for one sub-filter are not valid for the next", news[0].where())
-                return False
-    rep.ok(rid, f"{ctx}.{f.src_name}: appends one BloomFilter(est_elements=self est)")
     return True
 
 
-def count_est_orderings(conds, count, est):
-    return path_orderings(conds, count, est)
-
-
-def add_alt_shape(prog, rep, prefix, ctx, grow_fn_name, counter):
-    """counter +1 exactly once on every path; insert <=> force or not present; growth call precedes insert"""
-    f = prog.method(ctx, "add_alt")
-    ps = paths(prog, ctx, f)
+def add_alt_shape(prog, rep, prefix, ctx, counter):
+    """counter +1 exactly once on every path; insert <=> force or not present; list operations only before the insert.
+    Returns [(path, insert event or None, list operations)] for the non-raising paths"""
+    f, ps = entry_paths(prog, ctx, "add_alt")
     rep.analysed(f, ctx, len(ps))
     where = f"{ctx}.add_alt"
     good = True
-    grow = prog.method(ctx, grow_fn_name)
     rows = set()
+    out = []
     for p in ps:
         if p.exit[0] == "raise":
             continue
@@ -94,16 +95,13 @@ def add_alt_shape(prog, rep, prefix, ctx, grow_fn_name, counter):
         present = None
         for c in p.conds:
             a = strip_epochs(c.atom)
-            if a == ("p", "force"):
+            if a == ("p", "force") and c.func is f:
                 force = c.truth
             elif a[0] == "ret" and a[1].endswith(".check_alt") and a[3] == (SELF, ("p", "hashes")):
                 present = c.truth
-            elif a[0] != "loop0":
-                rep.bad(f"{prefix}.insert-condition", where, f"decision {nshow(a)}", f"add_alt decides on {nshow(a)}; only force and check_alt(hashes) may decide", f.where(c.node))
-                good = False
         ins = [i for i, e in enumerate(p.events) if e.kind == "call" and e.name == "add_alt" and e.recv is not None and strip_epochs(e.recv) == NEWEST]
         other_ins = [e for e in p.events if e.kind == "call" and e.name in ("add_alt", "add") and e.recv is not None and strip_epochs(e.recv) != NEWEST
-                     and strip_epochs(e.recv) != SELF]
+                     and strip_epochs(e.recv) != SELF and not e.d.get("inlined")]
         if other_ins:
             rep.bad(f"{prefix}.insert-condition", where, f"insert into {nshow(other_ins[0].recv)}", "insertion does not go to the newest sub-filter", other_ins[0].where())
             good = False
@@ -124,21 +122,24 @@ def add_alt_shape(prog, rep, prefix, ctx, grow_fn_name, counter):
                     f"with force={force}, present={present} the key is inserted {len(ins)} time(s); expected insertion exactly when force or not present", f.where())
             good = False
             continue
-        gcalls = [i for i, e in enumerate(p.events) if e.kind == "call" and e.target is grow]
+        ops = list_ops(prog, ctx, p, set())
         if ins:
-            if len(gcalls) != 1 or gcalls[0] > ins[0]:
-                rep.bad(f"{prefix}.growth-precedes-insert", where, "order", f"{grow_fn_name} does not run exactly once before the insertion into the newest sub-filter", f.where())
+            late = [o for o in ops if p.events.index(o[1]) > ins[0]]
+            if late:
+                rep.bad(f"{prefix}.growth-precedes-insert", where, "order",
+                        f"the sub-filter list is changed ({late[0][0]}) after the insertion into the newest sub-filter: the growth / rotation decision must come first", late[0][1].where())
                 good = False
-            if any(e.kind == "setfield" and e.name == counter for e in p.events[:0]):
-                pass
-        elif gcalls:
-            rep.bad(f"{prefix}.growth-precedes-insert", where, "growth without insertion", "the filter may grow on a path that inserts nothing", f.where())
+                continue
+        elif ops:
+            rep.bad(f"{prefix}.growth-precedes-insert", where, "growth without insertion", "the filter may grow on a path that inserts nothing", ops[0][1].where())
             good = False
+            continue
+        out.append((p, p.events[ins[0]] if ins else None, ops))
     if good:
         rep.ok(f"{prefix}.counter-dominates", where)
         rep.ok(f"{prefix}.insert-condition", f"{where}: rows {sorted(map(str, rows))}")
         rep.ok(f"{prefix}.growth-precedes-insert", where)
-    return good
+    return f, out, good
 
 
 def sub_counter_once(prog, rep, rid):
@@ -161,35 +162,40 @@ def check(prog, rep, tier):
     rep.rule("C09.append", "growth appends one sub-filter sized with the filter's own est_elements", floor=1)
     rep.rule("C09.sub-counter", "a sub-filter counts one per add_alt", floor=1)
     rep.assume("inductive hypothesis: newest.count <= est_elements before every add (base: fresh sub-filter has 0; step: this rule)")
-    add_alt_shape(prog, rep, "C09", ctx, "__check_for_growth", "_added_elements")
+    f, rows, shape_ok = add_alt_shape(prog, rep, "C09", ctx, "_added_elements")
     est = ("f", SELF, "_ExpandingBloomFilter__est_elements", 0)
     count = ("f", NEWEST, "_els_added", 0)
-    g = prog.method(ctx, "__check_for_growth")
-    adder = prog.method(ctx, "__add_bloom_filter")
-    ps = [p for p in paths(prog, ctx, g) if p.exit[0] == "return"]
-    rep.analysed(g, ctx, len(ps))
+    where = f"{ctx}.add_alt"
     H = {LT, EQ}
-    good = True
-    for p in ps:
-        ops = list_ops(prog, ctx, p, {adder.qualname})
-        o = path_orderings([strip_epochs(c) for c in all_conds(p)], count, est) & H
+    good = shape_ok
+    okapp = None
+    for p, ins, ops in rows:
+        if ins is None:
+            continue
+        # what is known about newest.count vs est when the key goes in
+        o = path_orderings([strip_epochs(c) for c in conds_at(p, ins)], count, est) & H
         names = [x[0] for x in ops]
         if names == ["append"]:
             if not o <= {EQ}:
-                rep.bad("C09.growth-predicate", f"{ctx}.__check_for_growth", f"grows with count vs est in {sorted(o)}",
+                rep.bad("C09.growth-predicate", where, f"grows with count vs est in {sorted(o)}",
                         f"the filter grows on a path where newest.count vs est_elements may be {sorted(o)}: it grows before the newest sub-filter is full", ops[0][1].where())
                 good = False
+            ok1 = appended_ok(rep, "C09.append", where, p, f, "_ExpandingBloomFilter__est_elements")
+            okapp = ok1 if okapp is None else (okapp and ok1)
         elif names == []:
             if not o <= {LT}:
-                rep.bad("C09.growth-predicate", f"{ctx}.__check_for_growth", f"no growth with count vs est in {sorted(o)}",
-                        f"no growth on a path where newest.count vs est_elements may be {sorted(o)}: a sub-filter can receive more than est_elements insertions", g.where())
+                rep.bad("C09.growth-predicate", where, f"no growth with count vs est in {sorted(o)}",
+                        f"no growth on a path where newest.count vs est_elements may be {sorted(o)}: a sub-filter can receive more than est_elements insertions", ins.where())
                 good = False
         else:
-            rep.bad("C09.growth-predicate", f"{ctx}.__check_for_growth", f"list operations {names}", f"the growth check performs {names} on the sub-filter list", ops[0][1].where())
+            rep.bad("C09.growth-predicate", where, f"list operations {names}", f"an insertion is preceded by {names} on the sub-filter list; only one append (growth) is allowed", ops[0][1].where())
             good = False
-    if good:
-        rep.ok("C09.growth-predicate", f"{ctx}.__check_for_growth: grow iff newest.count >= est")
-    appender_ok(prog, rep, "C09.append", ctx, adder, "_ExpandingBloomFilter__est_elements")
+    if good and rows:
+        rep.ok("C09.growth-predicate", f"{where}: grow iff newest.count >= est, decided before the insertion")
+    if okapp:
+        rep.ok("C09.append", f"{where}: growth appends one BloomFilter(est_elements=self est)")
+    elif okapp is None and shape_ok:
+        rep.bad("C09.append", where, "never grows", "no path of add_alt appends a new sub-filter", f.where())
     sub_counter_once(prog, rep, "C09.sub-counter")
 
 
